@@ -138,6 +138,8 @@ pub struct CssStyle {
     pub final_semi: u8,
     pub unknown_props: bool,
     pub junk_rules: bool,
+    /// unparsable rule sets (unsupported selector syntax) between the rules
+    pub junk_rulesets: bool,
 }
 
 impl CssStyle {
@@ -153,6 +155,7 @@ impl CssStyle {
             final_semi: 0,
             unknown_props: false,
             junk_rules: false,
+            junk_rulesets: false,
         }
     }
     pub fn random(rng: &mut Rng) -> CssStyle {
@@ -167,6 +170,7 @@ impl CssStyle {
             final_semi: r.below(3) as u8,
             unknown_props: r.chance(1, 3),
             junk_rules: r.chance(1, 3),
+            junk_rulesets: r.chance(1, 3),
             rng: Some(r),
         }
     }
@@ -341,6 +345,17 @@ const UNKNOWN_PROPS: [(&str, &str); 8] = [
     ("transition", "all .2s ease-in-out"),
 ];
 
+pub const JUNK_RULESETS: [&str; 8] = [
+    "a:hover { color: red; }",
+    "div::first-line { color: blue }",
+    "p[lang=en] { color: red; }",
+    ".x + .y { color: red }",
+    "li:not(.a) { display: none }",
+    "h1 ~ p { color: #123 }",
+    "input[type=\"text\"] { color: red }",
+    "{ color: red }",
+];
+
 const JUNK_RULES: [&str; 8] = [
     "@media screen and (max-width: 600px) { .zz { color: red; } }",
     "@import url(\"foo.css\");",
@@ -356,6 +371,13 @@ impl Sheet {
     pub fn to_css(&self, st: &mut CssStyle) -> String {
         let mut out = String::new();
         for rule in &self.0 {
+            if st.junk_rulesets && st.chance(1, 3) {
+                let i = st.below(JUNK_RULESETS.len());
+                out.push_str(JUNK_RULESETS[i]);
+                if !st.minify {
+                    out.push('\n');
+                }
+            }
             if st.junk_rules && st.chance(1, 3) {
                 let i = st.below(JUNK_RULES.len());
                 out.push_str(JUNK_RULES[i]);
